@@ -75,6 +75,16 @@ let () =
            let outs = ref [] in
            List.iter (fun i ->
                let (s1, o) = abf_step fops c !s i in
+               (* The grids of the model are functions idx -> value, each step wrapping the previous one in a
+                  closure: evaluate them once on the bins of the grid and continue with table look-ups
+                  (same function on every index: outside the table the original closure answers). *)
+               let zixs = List.map (fun ix -> List.map z_of_int ix) ixs in
+               let tc = Hashtbl.create 64 and ts = Hashtbl.create 64 in
+               List.iter2 (fun ix zix -> Hashtbl.replace tc ix (s1.s_cnt zix); Hashtbl.replace ts ix (s1.s_sum zix)) ixs zixs;
+               let key zix = List.map int_of_z zix in
+               let s1 = { s1 with
+                          s_cnt = (fun zix -> match Hashtbl.find_opt tc (key zix) with Some v -> v | None -> s1.s_cnt zix);
+                          s_sum = (fun zix -> match Hashtbl.find_opt ts (key zix) with Some v -> v | None -> s1.s_sum zix) } in
                s := s1; outs := o :: !outs;
                Buffer.add_string buf (Printf.sprintf "bin %s fbin %s cf %s tf %s af %s %s ; "
                                         (zs s1.s_bin) (zs s1.s_fbin) (fs o.o_fabf) (fs o.o_tf) (fs o.o_f)
